@@ -541,6 +541,13 @@ pub fn faulted<T>(
             .unwrap_or(if storage { "?" } else { "identity" });
         *w.stats.probes.entry(format!("fault-site:{what}:{site}")).or_default() += 1;
         match &r {
+            Ok(_) if !storage => {
+                // an identity-provider error while validating a by-reference proposal makes the committer or
+                // receiver drop that proposal, like any other invalid by-reference proposal: the operation
+                // legitimately succeeds
+                w.stats.probe(&format!("identity-error-absorbed:{what}"));
+                return Ok(r);
+            }
             Ok(_) => {
                 return Err(Violation::new(
                     &prop,
